@@ -4,7 +4,7 @@
 id=$1; shift
 # archive id may carry a round suffix (C01_r2): the worktree is then /tmp/w2_C01 and the default check is C01
 pidonly=${id%%_*}
-if [[ "$id" == *_r2 ]]; then wt=/tmp/w2_$pidonly; elif [[ "$id" == *_r3 ]]; then wt=/tmp/w3_$pidonly; elif [[ "$id" == *_r4 ]]; then wt=/tmp/w4_$pidonly; elif [[ "$id" == *_r5 ]]; then wt=/tmp/w5_$pidonly; elif [[ "$id" == *_r6 ]]; then wt=/tmp/w6_$pidonly; else wt=/tmp/wt_$id; fi
+if [[ "$id" == *_r2 ]]; then wt=/tmp/w2_$pidonly; elif [[ "$id" == *_r3 ]]; then wt=/tmp/w3_$pidonly; elif [[ "$id" == *_r4 ]]; then wt=/tmp/w4_$pidonly; elif [[ "$id" == *_r5 ]]; then wt=/tmp/w5_$pidonly; elif [[ "$id" == *_r6 ]]; then wt=/tmp/w6_$pidonly; elif [[ "$id" == *_r7 ]]; then wt=/tmp/w7_$pidonly; else wt=/tmp/wt_$id; fi
 checks=${@:-$pidonly}
 out=/verif/seeded/$id; mkdir -p $out
 cd $wt || exit 2
